@@ -68,6 +68,20 @@ def fresh_strid(ex, base="str"):
     return SStrId(z3.Int(ex._name(base)))
 
 
+DT_VALID = z3.Function('DT_VALID', *([z3.IntSort()] * 7 + [z3.BoolSort()]))
+
+
+class SDatetime(Sym):
+    """datetime value given by its integer fields"""
+    __slots__ = ('fields',)
+
+    def __init__(self, fields):
+        self.fields = fields
+
+    def __repr__(self):
+        return f"SDatetime{self.fields}"
+
+
 class Guarded(Sym):
     """list element that is present only under a condition (result of if-conversion of an append-only branch)"""
     __slots__ = ('cond', 'value')
@@ -270,6 +284,8 @@ def compare_sym(ex, op, a, b):
                 return fin(x == y)
             return mk_bool({ast.Lt: lambda: F_LT(x, y), ast.LtE: lambda: F_LE(x, y), ast.Gt: lambda: F_LT(y, x),
                             ast.GtE: lambda: F_LE(y, x)}[type(op)]())
+    if isinstance(a, SDatetime) and isinstance(b, SDatetime) and eqop:
+        return fin(z3.simplify(z3.And(*[iterm(x) == iterm(y) for x, y in zip(a.fields, b.fields)])))
     if isinstance(a, SJoin) or isinstance(b, SJoin):
         if eqop:
             if isinstance(a, str):
@@ -878,10 +894,17 @@ def m_datetime(ex, *args, **kw):
             return _dt.datetime(*args, **kw)
         except Exception as e:
             raise PyRaise(e)
-    # assumption A4: on integer fields datetime() either returns or raises ValueError
-    if ex.choose(2, tag="datetime") == 1:
+    # assumption A4: on integer fields datetime() either returns or raises ValueError; which of the two is a
+    # function of the field values (uninterpreted predicate DT_VALID), so equal fields behave equally
+    names = ("year", "month", "day", "hour", "minute", "second", "microsecond")
+    fields = dict(zip(names, args))
+    fields.update(kw)
+    if any(not is_intlike(fields.get(n, 0)) for n in names):
+        raise Unsupported("datetime() with non-integer symbolic fields")
+    terms = [iterm(fields.get(n, 0)) for n in names]
+    if ex.branch(z3.Not(DT_VALID(*terms)), tag="datetime.invalid"):
         raise PyRaise(ValueError("date value out of range"))
-    d = ex.fresh_any("datetime")
+    d = SDatetime(tuple(fields.get(n, 0) for n in names))
     ex.events.append(('datetime', tuple(args), dict(kw), d))
     return d
 
